@@ -130,7 +130,14 @@ pub unsafe extern "C" fn resolvo_string_from_bytes(
     len: usize,
 ) {
     unsafe {
-        let str = core::str::from_utf8(core::slice::from_raw_parts(bytes, len)).unwrap();
+        // `bytes` may be null for an empty string (e.g. a default-constructed
+        // `std::string_view`), which `slice::from_raw_parts` does not allow.
+        let bytes = if len == 0 {
+            &[]
+        } else {
+            core::slice::from_raw_parts(bytes, len)
+        };
+        let str = core::str::from_utf8(bytes).unwrap();
         core::ptr::write(out, String::from(str));
     }
 }
